@@ -21,7 +21,7 @@ PLANNED = []
 
 CHECKS = {
     'C20': {
-        'text': 'seeded search over thread schedules (uniform / critical-window / PCT policies, line granularity, opcode granularity inside the functions that touch thread-local and process-wide state) of 2-3 client threads building from different files with different safe flags, includes and failing inputs; every observation of each thread is compared with an isolated serial twin run of the same program in a fresh process. A clean batch is evidence, not proof.',
+        'text': 'seeded search over thread schedules (uniform / critical-window / PCT policies, line granularity, opcode granularity inside the functions that touch thread-local and process-wide state) of 2-3 client threads building from different files with different safe flags, includes and failing inputs (a share of the scenarios in an interpreter that turns SyntaxWarning into an error, the threads compiling code the compiler warns about); every observation of each thread is compared with an isolated serial twin run of the same program in a fresh process. A clean batch is evidence, not proof.',
         'note': 'trusts the scheduler to expose the relevant interleavings at Python line/opcode granularity of awesomeyaml frames; windows inside PyYAML or C code are not pre-empted; CPython 3.12.1 only',
         'technique': 'deterministic simulation: seeded thread-schedule search (baton-passing real threads on sys.monitoring events) with isolated-twin oracle',
         'ref': 'DESIGN.md 3.3, 4 (C20)'},
